@@ -408,7 +408,7 @@ static void witnessCopiedPolicy() {
 }
 
 static const int kWitnesses = 3;
-long verif::verif_ncases(const std::string & tier) { return kWitnesses + (tier == "thorough" ? 1100 : 110); }
+long verif::verif_ncases(const std::string & tier) { return kWitnesses + (tier == "thorough" ? 1100 : 220); }
 
 void verif::verif_case(Rng & rng, long idx, const std::string & tier) {
     if (idx == 0) { witnessPolicyPrecision(rng, tier); return; }
@@ -416,7 +416,7 @@ void verif::verif_case(Rng & rng, long idx, const std::string & tier) {
     if (idx == 2) { witnessCopiedPolicy(); return; }
     long k = (idx - kWitnesses) % 11;
     int style = (int)(((idx - kWitnesses) / 11) % 2);       // alternate dyadic / ugly
-    Shape sh{(size_t)rng.range(1, 4), (size_t)rng.range(1, 3), (size_t)rng.range(1, 3)};
+    Shape sh{(size_t)rng.range(1, 5), (size_t)rng.range(1, 3), (size_t)rng.range(1, 3)};
     if (tier == "thorough" && rng.coin(1, 6)) sh = Shape{(size_t)rng.range(4, 7), (size_t)rng.range(1, 4), (size_t)rng.range(1, 4)};
     std::printf("#stat style:%d 1\n", style);
     g_good = g_fail = g_threw = 0;
